@@ -24,9 +24,11 @@ def versions_stage(ctx):
     dump = os.path.join(ctx.workdir, "versions", "states")
     ctx.run_tlc("e1.versions", "Versions", "Versions_%s.cfg" % ctx.tier, dump=dump)
     n = 0
+    prev = []
     for st in vlib.read_dump(dump + ".dump"):
         n += 1
         v, t, exp = st["v"], st["t"], st["exp"]
+        this = {"k": "order", "version": vs(v), "threshold": vs(t)} if st["kind"] == "order" else {"k": "gate", "gate": st["gate"], "version": vs(v), "threshold": vs(t)}
         if st["kind"] == "order":
             ctx.count(("order", tuple(v), tuple(t)))
             port = ebbfake.LegacyOKPort(version=vs(v))
@@ -35,9 +37,9 @@ def versions_stage(ctx):
             obj.parse_version(L.VERSION_LINE % vs(v))          # as connect() learns it, from the identification line
             got_3 = obj.min_version(vs(t))
             if got_l is not exp:
-                ctx.violation("version.numeric_order_legacy", {"mode": "G", "k": "order", "version": vs(v), "threshold": vs(t)}, exp, repr(got_l))
+                ctx.violation("version.numeric_order_legacy", {"mode": "G", "k": "order", "version": vs(v), "threshold": vs(t), "previous": prev}, exp, repr(got_l))
             if got_3 is not exp:
-                ctx.violation("version.numeric_order_ebb3", {"mode": "G", "k": "order", "version": vs(v), "threshold": vs(t)}, exp, repr(got_3))
+                ctx.violation("version.numeric_order_ebb3", {"mode": "G", "k": "order", "version": vs(v), "threshold": vs(t), "previous": prev}, exp, repr(got_3))
         else:
             g = st["gate"]
             ctx.count(("gate", g, tuple(v)))
@@ -51,11 +53,12 @@ def versions_stage(ctx):
                 sent = cmd in names
                 extra = [x for x in names if x not in ("V", cmd)]
                 if sent is not exp or extra:
-                    ctx.violation("version.legacy_gate_" + g, {"mode": "G", "k": "gate", "gate": g, "version": vs(v), "threshold": vs(t)},
+                    ctx.violation("version.legacy_gate_" + g, {"mode": "G", "k": "gate", "gate": g, "version": vs(v), "threshold": vs(t), "previous": prev},
                                   {"command_sent": exp}, {"writes": port.writes})
             except Exception as ex:  # pylint: disable=broad-except
-                ctx.violation("version.legacy_gate_" + g, {"mode": "G", "k": "gate", "gate": g, "version": vs(v), "threshold": vs(t)}, {"command_sent": exp},
+                ctx.violation("version.legacy_gate_" + g, {"mode": "G", "k": "gate", "gate": g, "version": vs(v), "threshold": vs(t), "previous": prev}, {"command_sent": exp},
                               "raised " + type(ex).__name__)
+        prev = (prev + [this])[-3:]
         if n % 1499 == 1:
             ctx.sample({"mode": "G", "kind": st["kind"], "version": vs(v), "threshold": vs(t), "gate": st["gate"], "expected": exp})
     os.remove(dump + ".dump")
@@ -105,9 +108,75 @@ def run(ctx):
                     "order is total, antisymmetric and numeric; the real layers are judged against the enumerated vectors and by EBB3Trace (focus C15).")
 
 
+GATES = {"servo_timeout": ("SR", "2.6.0"), "query_voltage": ("QC", "2.2.3"), "query_nickname": ("QT", "2.5.5"), "write_nickname": ("ST", "2.5.5"), "reboot": ("RB", "2.5.5")}
+
+
+def replay_vector(c):
+    """one version vector again (after the vector that preceded it in the run, whose port object has gone away by then): the real answer, judged by TLC"""
+    keep = None
+    for old in c.get("previous") or []:                  # as in the run: each port object is released only after the next one exists
+        _e, _s, port = exec_vector(old)
+        keep = port
+    evs, seen, port = exec_vector(c)
+    del keep
+    ctx = vlib.Ctx("C15", "quick", 0, LEVEL, fresh=False)
+    vs, _st = vlib.judge_events(os.path.join(ctx.workdir, "replay_v"), "VersionsTrace", "VersionsTrace.cfg", evs)
+    if all(v == "ok" for v in vs) and c.get("previous"):
+        # the vector holds on its own: what was observed may depend on everything the stage did before it (state kept between calls, object
+        # addresses reused) - run the whole vector stage again and look for the same clause
+        import glob
+        import json
+        sub = vlib.Ctx("C15", "quick", 0, LEVEL, fresh=False)
+        sub.replaydir = os.path.join(sub.workdir, "replay_stage")
+        versions_stage(sub)
+        same = []
+        for path in [p for p in sub.violations if p]:
+            r = json.load(open(path))
+            if r["clause"] == c.get("_clause", r["clause"]):
+                same.append(r["case"])
+        return not same, {"verdicts": vs, "observed": seen, "whole_stage_again": {"violations": len([p for p in sub.violations if p]), "first": same[:1]}}
+    return all(v == "ok" for v in vs), {"verdicts": vs, "observed": seen}
+
+
+def exec_vector(c):
+    from plotink import ebb_serial, ebb_motion, ebb3_serial
+    ebb_serial.logger.handlers = [logging.NullHandler()]
+    ebb_serial.logger.propagate = False
+    tri = lambda s: [int(x) for x in s.split(".")]  # noqa: E731
+    ver = c["version"]
+    if c["k"] == "order":
+        port = ebbfake.LegacyOKPort(version=ver)
+        got_l = ebb_serial.min_version(port, c["threshold"])
+        obj = ebb3_serial.EBB3()
+        obj.parse_version(L.VERSION_LINE % ver)
+        got_3 = obj.min_version(c["threshold"])
+        evs = [{"v": tri(ver), "t": tri(c["threshold"]), "got": got_l is True, "extra": got_l not in (True, False), "clause": "version.numeric_order_legacy"},
+               {"v": tri(ver), "t": tri(c["threshold"]), "got": got_3 is True, "extra": got_3 not in (True, False), "clause": "version.numeric_order_ebb3"}]
+        seen = {"legacy": repr(got_l), "ebb3": repr(got_3)}
+    else:
+        g = c["gate"]
+        cmd, thr = GATES[g]
+        versionless = not ver[:1].isdigit()
+        port = ebbfake.LegacyOKPort(version=(None if "identification" in ver else "") if versionless else ver)
+        fn = {"servo_timeout": lambda: ebb_motion.servo_timeout(port, 60000, 1), "query_voltage": lambda: ebb_motion.queryVoltage(port),
+              "query_nickname": lambda: ebb_serial.query_nickname(port), "write_nickname": lambda: ebb_serial.write_nickname(port, "Lab"),
+              "reboot": lambda: ebb_serial.reboot(port)}[g]
+        try:
+            fn()
+            raised = False
+        except Exception:  # pylint: disable=broad-except
+            raised = True
+        names = [ebbfake.req_name(w) for w in port.writes]
+        evs = [{"v": [0, 0, 0] if versionless else tri(ver), "t": tri(thr), "got": cmd in names,
+                "extra": raised or bool([x for x in names if x.upper() != "V" and x != cmd]), "clause": "version.legacy_gate_" + g}]
+        seen = {"writes": port.writes, "raised": raised}
+    return evs, seen, port
+
+
 def replay(rec):
     c = rec["case"]
     if c.get("k") in ("order", "gate"):
-        return True, {"note": "re-run ./check C15: version vectors are re-enumerated by TLC"}
+        c["_clause"] = rec.get("clause")
+        return replay_vector(c)
     c.setdefault("start_connected", False)
     return c05.replay(rec)
